@@ -81,3 +81,76 @@ def fuzz_campaign(target, runs=(4000, 150000), max_len=96, dictionary=(), corpus
         finally:
             shutil.rmtree(work, ignore_errors=True)
     return fn
+
+
+# ---------------------------------------------------------------------------
+# decoders shared by the check modules
+# ---------------------------------------------------------------------------
+import re as _re
+from urllib.parse import urlsplit as _urlsplit
+
+_CTRL = _re.compile(r"[\x00-\x1f\x7f-\x9f]")
+_PROTO = _re.compile(r"^[a-zA-Z]{0,64}:?//")
+URL_DICT = ["http://", "https://", "//", "www.", ".com", ".fr", ".co.uk", "a.com", "example.org", "@", ":", ":80", ":443", ":8080", ":0", "/", "//", "/./", "/../", "/..", "?", "&", "=",
+            "#", "%", "%20", "%2F", "%3F", "%23", "%26", "%3D", "%40", "%3A", "%25", "%2B", "%41", "%7E", "%C3%A9", "%E9", "%C2%A0", "%EF%BC%A0", "%00", "%0A", "%7F", "%zz", "+", " ",
+            "é", "ü", "xn--9ca", "xn--", "[::1]", "[2001:db8::1]", "127.0.0.1", "localhost", "user:pw@", "&amp;", "utm_source=x", "fbclid=1", "index.html", "/amp/", "amp-", "m.", "fr.",
+            "url=", "u=", "next=", "q=", "redirect", ".ampproject.org/c/s/", "youtube.com/watch?v=dQw4w9WgXcQ", "facebook.com/", "twitter.com/", "#!/", "t.me/", "|", ";", "\u2003"]
+URL_CORPUS = ["http://user:pw@www.example.com:8080/a/b/../c/index.html?b=2&a=1&utm_source=x#frag", "https://é.fr/caf%C3%A9?q=a%20b", "//a.com/x y", "example.org",
+              "http://site.com/out?url=http%3A%2F%2Ftarget.org%2Fp", "https://x.cdn.ampproject.org/c/s/example.com/a"]
+
+
+def text_from_bytes(data):
+    return data.decode("utf-8", "ignore")
+
+
+def parseable_url_from_bytes(data):
+    """a string the library's own preprocessing can parse (control characters and surrounding whitespace removed, a scheme prefixed when there
+    is none, urlsplit and its port accept it and there is a host); anything else is outside the domain of the URL-level relations"""
+    s = data.decode("utf-8", "ignore")
+    cleaned = _CTRL.sub("", s).strip()
+    if not cleaned:
+        return None
+    full = cleaned if _PROTO.match(cleaned) else "https://" + cleaned
+    if full.startswith("//"):
+        full = "https:" + full
+    try:
+        sp = _urlsplit(full)
+        sp.port
+    except ValueError:
+        return None
+    if not sp.hostname or any(c.isspace() for c in sp.hostname):
+        return None     # no host, or a "host" containing whitespace: not a name (same restriction as C07)
+    hostport = sp.netloc.rpartition("@")[2]
+    if "[" in hostport or "]" in hostport:
+        # an IP literal must be one: '[' valid address ']' optional port (urlsplit lets '[::1%3[::1]9' through)
+        m = _re.match(r"^\[([0-9A-Fa-f:.]+)\](?::\d*)?$", hostport)
+        if m is None:
+            return None
+        try:
+            import ipaddress
+            ipaddress.ip_address(m.group(1))
+        except ValueError:
+            return None
+    elif "%" in sp.hostname:
+        return None     # escapes inside a registered name: not generated
+    return s
+
+
+def parseable_url_without_redirection(data):
+    """parseable, and the library infers no redirection from it (cleaned or canonicalized): the interplay of redirection inference with
+    respelling is covered by the structured campaigns and the open findings of C03 / C04, not by raw fuzzing"""
+    s = parseable_url_from_bytes(data)
+    if s is None:
+        return None
+    from ural import infer_redirection, canonicalize_url
+    cleaned = _CTRL.sub("", s).strip()
+    try:
+        if infer_redirection(cleaned) != cleaned:
+            return None
+        for q in (False, True):
+            c = canonicalize_url(s, quoted=q)
+            if infer_redirection(c) != c:
+                return None
+    except Exception:
+        return s    # let the evaluator see (and report) whatever raises
+    return s
